@@ -1,6 +1,7 @@
 import SgModel.Lemmas.Cy
 import SgModel.Lemmas.CyAnchor
 import SgModel.Lemmas.CyIso
+import SgModel.Lemmas.CyGroup
 /-!
 # C01 — read queries return exactly the rows openCypher semantics define
 
@@ -180,10 +181,11 @@ theorem C01_limit_pushdown_subbag {α β : Type} (f : α → β) (k : Nat) (rows
 
 /-! ## the model satisfies the specification the harness evaluates on the engine -/
 
-/-- For every bag of pre-ORDER-BY rows, every key order, every SKIP/LIMIT: the window of the
-stably sorted rows is an admissible result. -/
-theorem C01_model_refines_spec (descs : List Bool) (skip limit : Option Nat) (P : List PRow) :
-    admissible descs skip limit P
+/-- For every bag of pre-ORDER-BY rows (plain, DISTINCT, or one row per group of a grouped
+aggregation), every key order, every set of `collect` columns, every SKIP/LIMIT: the window
+of the stably sorted rows is an admissible result. -/
+theorem C01_model_refines_spec (descs cc : List Bool) (skip limit : Option Nat) (P : List PRow) :
+    admissible descs cc skip limit P
       ((window skip limit (sortBy (fun a b => keysLe descs a.key b.key) P)).map (·.vals)) = true := by
   unfold admissible admissibleBy
   have hmap : ∀ (xs : List PRow), (window skip limit (xs.map (·.key))) = (window skip limit xs).map (·.key) := by
@@ -196,19 +198,19 @@ theorem C01_model_refines_spec (descs : List Bool) (skip limit : Option Nat) (P 
   rw [List.countP_map]
   have hsub := window_sublist skip limit (sortBy (fun a b => keysLe descs a.key b.key) P)
   have hperm := sortBy_perm (fun a b => keysLe descs a.key b.key) P
-  calc List.countP ((fun x => keysEqv descs c x.1 && x.2 == r) ∘ fun a => (a.key, a.vals))
+  calc List.countP ((fun x => keysEqv descs c x.1 && rowEqv cc x.2 r) ∘ fun a => (a.key, a.vals))
           (window skip limit (sortBy (fun a b => keysLe descs a.key b.key) P))
-      ≤ List.countP ((fun x => keysEqv descs c x.1 && x.2 == r) ∘ fun a => (a.key, a.vals))
+      ≤ List.countP ((fun x => keysEqv descs c x.1 && rowEqv cc x.2 r) ∘ fun a => (a.key, a.vals))
           (sortBy (fun a b => keysLe descs a.key b.key) P) := hsub.countP_le
-    _ = List.countP ((fun x => keysEqv descs c x.1 && x.2 == r) ∘ fun a => (a.key, a.vals)) P :=
+    _ = List.countP ((fun x => keysEqv descs c x.1 && rowEqv cc x.2 r) ∘ fun a => (a.key, a.vals)) P :=
           hperm.countP_eq _
-    _ = List.countP (fun pr => keysEqv descs c pr.key && pr.vals == r) P := rfl
+    _ = List.countP (fun pr => keysEqv descs c pr.key && rowEqv cc pr.vals r) P := rfl
 
-/-- For every graph and every query without a `collect` column: the table the model
+/-- For every graph and every query of the fragment — grouped aggregation
+(`count/sum/avg/min/max/collect`, with or without DISTINCT) included: the table the model
 computes satisfies the specification the harness evaluates on the engine's table. -/
 theorem C01_model_refines_spec_query (g : Graph) (de : Bool) (q : Query) (t : Table)
-    (hc : q.ret.collectCols.all (!·) = true) (h : evalQuery g de q = .ok t) :
-    specQuery g de q t = .ok := by
+    (h : evalQuery g de q = .ok t) : specQuery g de q t = .ok := by
   unfold evalQuery at h
   unfold specQuery specQueryWith
   cases hr : evalClauses g de q.clauses [[]] with
@@ -221,22 +223,36 @@ theorem C01_model_refines_spec_query (g : Graph) (de : Bool) (q : Query) (t : Ta
       simp only [hP, pure, Except.pure] at h
       injection h with h
       subst h
-      simp only
-      have hid : ∀ vs, canonRow q.ret.collectCols vs = vs := fun vs => canonRow_noop _ vs hc
-      have heta : List.map (fun pr : PRow => ({ key := pr.key, vals := pr.vals } : PRow)) P = P := by
-        induction P with
-        | nil => rfl
-        | cons x xs ih => simp
-      have := C01_model_refines_spec q.ret.descs q.ret.skip q.ret.limit P
-      simp only [hP, heta, sortPRows, List.map_map, Function.comp_def, hid, bne_self_eq_false,
-        Bool.false_eq_true, if_false, this, if_true]
+      have := C01_model_refines_spec q.ret.descs q.ret.collectCols q.ret.skip q.ret.limit P
+      simp only [hP, sortPRows, bne_self_eq_false, Bool.false_eq_true, if_false, this, if_true]
+
 /-- without SKIP/LIMIT an admissible result has exactly as many rows as the reference -/
-theorem C01_admissible_length (descs : List Bool) (P : List PRow) (out : List (List Val))
-    (h : admissible descs none none P out = true) : out.length = P.length := by
+theorem C01_admissible_length (descs cc : List Bool) (P : List PRow) (out : List (List Val))
+    (h : admissible descs cc none none P out = true) : out.length = P.length := by
   unfold admissible admissibleBy at h
   simp only [Bool.and_eq_true, beq_iff_eq] at h
   rw [h.1]
   simp [window, (sortBy_perm _ P).length_eq]
+
+/-! ## grouped aggregation -/
+
+/-- Grouping partitions the input rows: the groups have pairwise different key tuples (so
+rows with identical keys — null keys included — are *one* group, however many distinct
+nodes produced them) and every input row lands in exactly one group. -/
+theorem C01_grouping_partitions (keyed : List (List Val × Row)) :
+    ((groupBy keyed).map (·.1)).Nodup
+      ∧ ((groupBy keyed).map (·.2.length)).sum = keyed.length := by
+  have h := foldl_groupStep_inv keyed [] List.nodup_nil
+  rw [groupBy_eq_foldl]
+  exact ⟨h.1, by simpa [sizes] using h.2⟩
+
+/-- `sum` keeps the integer type while every addend is an integer and is checked; one float
+addend makes the result a float (the partial sums of the engine's two-phase grouping must be
+merged accordingly): `sum [2, 3] = 5`, `sum [2, 0.5, 3] = 5.5`, not `0.5` -/
+theorem C01_sum_type_examples :
+    sumVals [.int 2, .int 3] = .ok (.int 5)
+      ∧ sumVals [.int 2, .flt 1 1, .int 3] = .ok (.flt 11 1) := by
+  constructor <;> rfl
 
 /-! ## matching does not depend on the anchor -/
 
